@@ -287,10 +287,74 @@ def rule_mutate_only_fresh(ctx, rep: Report, rid: str, package: str, exempt: Dic
                     f"in-place modification ({how}) of {unparse(base)[:40]}, which is shared ({why}): the "
                     f"change is visible to every other holder of the same object (other instantiations, "
                     f"later queries of the parse tree)" if not ok else why, loc)
+        # nested helper functions (closures): their parameters are owned by whoever calls them
+        for g in ast.walk(fn):
+            if not isinstance(g, ast.FunctionDef) or g is fn:
+                continue
+            gparams = set(func_params(g))
+            calls_g = [c for c in ast.walk(fn) if isinstance(c, ast.Call) and isinstance(c.func, ast.Name) and c.func.id == g.name]
+            for node, base, how in mutation_sites(g):
+                root = _root(base)
+                if not isinstance(root, ast.Name):
+                    continue
+                n += 1
+                key = f"mutation:{fid.qual}.{g.name}:{unparse(node)[:60]}"
+                loc = f"{mi.rel}:{node.lineno}"
+                if allow_parent_links and how == "attribute store .parent":
+                    rep.add(rid, key, True, "back-link to the owner", loc, nontrivial=False)
+                    continue
+                owner = _owner_param(g, root, gparams)
+                if owner is None:
+                    ok, why = fr.fresh(root, g, mi, ci)
+                    if not ok and root.id not in gparams and root.id not in local_assignments(g):
+                        # a variable of the enclosing function
+                        ok, why = fr.fresh(ast.copy_location(ast.Name(id=root.id, ctx=ast.Load()), g), fn, mi, ci)
+                    rep.add(rid, key, ok, f"in-place modification ({how}) of {unparse(base)[:40]}, which is shared ({why})"
+                            if not ok else why, loc)
+                    continue
+                bad = []
+                for c in calls_g:
+                    inside = enclosing(c, ast.FunctionDef) is g or any(x is c for x in ast.walk(g))
+                    idx = func_params(g).index(owner)
+                    arg = c.args[idx] if idx < len(c.args) else next((k.value for k in c.keywords if k.arg == owner), None)
+                    if arg is None:
+                        continue
+                    aroot = _root(arg)
+                    if inside:
+                        if not (isinstance(aroot, ast.Name) and _owner_param(g, aroot, gparams) is not None):
+                            ok2, why2 = fr.fresh(aroot, g, mi, ci)
+                            if not ok2:
+                                bad.append(f"recursive call passes {unparse(arg)[:30]} ({why2})")
+                    else:
+                        ok2, why2 = fr.fresh(aroot, fn, mi, ci)
+                        if not ok2:
+                            bad.append(f"{fid.qual} passes {unparse(arg)[:30]} ({why2})")
+                rep.add(rid, key, bool(calls_g) and not bad,
+                        f"in-place modification ({how}) of {unparse(base)[:40]} inside helper {g.name}: "
+                        f"{'; '.join(bad) or 'helper is never called'}" if (bad or not calls_g) else
+                        f"every caller of {g.name} passes a value it owns", loc)
     rep.units.setdefault("mutation_sites", 0)
     rep.units["mutation_sites"] += n
     if n < min_sites:
         raise AnalysisError(f"{rep.prop}/{rid}: only {n} mutation sites found in {package} (>= {min_sites} expected)")
+
+
+def _owner_param(g, root: ast.Name, gparams) -> Optional[str]:
+    """The parameter of g that `root` is, or iterates over (for x in <param>.attr ...)."""
+    if root.id in gparams:
+        binds, killed = reaching_defs(g, root.id, root)
+        if not killed:
+            return root.id
+    binds, _ = reaching_defs(g, root.id, root)
+    for b in binds:
+        if isinstance(b, (ast.For, ast.comprehension)):
+            it = b.iter
+            if isinstance(it, ast.Call) and isinstance(it.func, ast.Name) and it.func.id in ("enumerate", "reversed"):
+                it = it.args[0]
+            r = _root(it)
+            if isinstance(r, ast.Name) and r.id in gparams:
+                return r.id
+    return None
 
 
 def _param_fresh_at_callers(fr: Fresh, fid: FuncId, pname: str) -> Tuple[bool, str]:
